@@ -186,7 +186,7 @@ class LocaleDataLoader:
             if unsupported_languages:
                 raise ValueError(
                     "Unknown language(s): %s"
-                    % ", ".join(map(repr, unsupported_languages))
+                    % ", ".join(map(repr, sorted(unsupported_languages)))
                 )
             if region is None:
                 region = ""
